@@ -50,9 +50,34 @@ pub fn cases(rng: &mut Rng, tier: &str) -> (Vec<Case>, bool) {
             let r = w.start(&format!("{} {}", (i + 1) * 10, t));
             kinds.insert(if r == "ok" { "stored" } else { "rejected" });
         }
+        if rng.chance(1, 4) {
+            // the smallest and the largest line number there is
+            w.start("0 DATA zero");
+            w.start("18446744073709551615 DATA \"LAST\" : PRINT \"last line\"");
+            kinds.insert("extreme-numbers");
+        }
         // a tail that dumps every DATA item READ sees
         w.start("9000 READ Q$ : PRINT \"[\"; Q$; \"]\" : GOTO 9000");
         w.op("take");
+        if rng.chance(1, 3) {
+            // the stored program has a history: it ran (READ has executed), then lines were overwritten / deleted - in
+            // particular DATA lines replaced by lines without DATA.  The listing must describe the program as it is NOW.
+            w.start("GOTO 9000");
+            let mut nr0 = 0;
+            w.drive(&["1".to_string()], &mut nr0, 60, false);
+            w.op("take");
+            for _ in 0..rng.range(1, 3) {
+                let n = (rng.range(1, k) as u64) * 10;
+                match rng.below(4) {
+                    0 => w.start(&format!("{} REM gone", n)),
+                    1 => w.start(&format!("{}", n)),
+                    2 => w.start(&format!("{} DATA replaced, 2", n)),
+                    _ => w.start(&format!("{} PRINT \"p\"", n)),
+                };
+            }
+            w.op("take");
+            kinds.insert("edited-after-run");
+        }
         w.start("LIST");
         w.op("take");
         let l1 = w.last();
